@@ -56,6 +56,7 @@ KEY_WHAT = {
     "lookup-returns-unknown-object": "a lookup returned an object that never was a frame of any matrix of the history",
     "lookup-misses-frame": "a lookup returned None although a frame of the matrix carries the key",
     "lookup-raises": "a lookup raised",
+    "operation-raises": "copy_frame/merge raised although the source holds the frame (its own lookups of one id disagreed)",
     "bystander-matrix-modified": "an operation changed the frame list of a matrix it was not addressed to",
 }
 
@@ -70,6 +71,18 @@ def dbc_text(frames, ecus):
     for i, e, n in frames:
         out += ["BO_ %d %s: 8 Vector__XXX" % ((i | 0x80000000) if e else i, NAMES[n]), ""]
     return "\n".join(out) + "\n"
+
+
+def obs_lookups(nmat, uni):
+    """what ["obs"] stands for"""
+    U = UNIVERSES[uni]
+    out = []
+    for mi in range(nmat):
+        out += [["lid", mi, i, e] for i, e in U["keys"]]
+        out += [["lname", mi, n] for n in U["names"]]
+        out += [["lpgn", mi, p] for p in U["pgns"]]
+        out += [["lhdr", mi, h] for h in U["hdrs"]]
+    return out
 
 
 class Failure(Exception):
@@ -110,7 +123,6 @@ class Runner:
         failures = [] # (class, step, lookup op, expected, observed)
         nlook = 0
         skipped = 0
-        U = UNIVERSES[uni]
 
         def register(mi):
             for f in mats[mi].frames:
@@ -197,6 +209,12 @@ class Runner:
             exp.append([3] if raised is not None else [1, uid_of(r)])
             check(step, op, mi, r, carrying, raised)
 
+        def raised_in_edit(step, op, ex):
+            """copy_frame / merge are built on the lookups; they raise when two lookups of one id disagree"""
+            failures.append(("operation-raises", step, list(op), "no exception", "%s: %s" % (type(ex).__name__, ex)))
+            if stop_at_failure:
+                raise Failure()
+
         def snapshot():
             return [[(id(f), f.arbitration_id.id, f.arbitration_id.extended, f.name, f.header_id) for f in d.frames] for d in mats]
 
@@ -226,15 +244,8 @@ class Runner:
                         exp.append([1, uid_of(f)])
                     continue
                 if kind == "obs":
-                    for mi in range(len(mats)):
-                        for i, e in U["keys"]:
-                            lookup(step, ["lid", mi, i, e])
-                        for n in U["names"]:
-                            lookup(step, ["lname", mi, n])
-                        for p in U["pgns"]:
-                            lookup(step, ["lpgn", mi, p])
-                        for h in U["hdrs"]:
-                            lookup(step, ["lhdr", mi, h])
+                    for look in obs_lookups(len(mats), uni):
+                        lookup(step, look)
                     continue
                 involved = [op[1], op[2]] if kind in ("copy", "merge") else [op[1]]
                 if any(m >= len(mats) for m in involved):
@@ -311,19 +322,31 @@ class Runner:
                     exp.append([0])
                 elif kind == "copy":
                     target = op[2]
+                    mops.append([10, op[1], op[2], op[3], int(bool(op[4]))])
+                    in_src = [f for f in mats[op[1]].frames
+                              if f.arbitration_id.id == op[3] and f.arbitration_id.extended == bool(op[4])]
                     try:
                         r = self.copy_frame(C.ArbitrationId(op[3], bool(op[4])), mats[op[1]], mats[op[2]])
                         exp.append([2, int(bool(r))])
-                    except AttributeError:
+                    except AttributeError as ex:
+                        # "Copying Frame " + None.name: expected exactly when the source has no such frame
                         exp.append([3])
+                        if in_src:
+                            raised_in_edit(step, op, ex)
+                    except Exception as ex:  # noqa
+                        exp.append([3])
+                        raised_in_edit(step, op, ex)
                     register(op[2])
-                    mops.append([10, op[1], op[2], op[3], int(bool(op[4]))])
                 elif kind == "merge":
                     target = op[1]
-                    mats[op[1]].merge([mats[op[2]]])
-                    register(op[1])
                     mops.append([11, op[1], op[2]])
-                    exp.append([0])
+                    try:
+                        mats[op[1]].merge([mats[op[2]]])
+                        exp.append([0])
+                    except Exception as ex:  # noqa
+                        exp.append([3])
+                        raised_in_edit(step, op, ex)
+                    register(op[1])
                 else:
                     raise ValueError("unknown operation %r" % (op,))
                 if before is not None:
@@ -650,8 +673,17 @@ def shrink(runner, ops, uni, cls):
         h2 = [list(o) for o in h[:step + 1]]
         if h2[-1][0] == "obs":
             h3 = h2[:-1] + [look]
-            if fails(h3) and fails(h3)[1] == len(h3) - 1:
+            f3 = fails(h3)
+            if f3 and f3[1] == len(h3) - 1:
                 return h3
+            # the observation's earlier lookups matter: spell them out (the deletions below thin them)
+            nmat = sum(1 for o in h2 if o[0] in ("new", "newdbc"))
+            seq = obs_lookups(nmat, uni)
+            if look in seq:
+                h4 = h2[:-1] + seq[:seq.index(look) + 1]
+                f4 = fails(h4)
+                if f4 and f4[1] == len(h4) - 1:
+                    return h4
         return h2
 
     cur = cut(ops)
@@ -783,21 +815,27 @@ def run(chk):
         note(res, ops, "rand")
         if not res["failures"]:
             reg_results.append((ops, res))
-    chk.sample(dict(history=REGRESSIONS[10][1], note="memoised frame is no longer the first with its id, then loses it in place"))
+    chk.sample(dict(history=dict(REGRESSIONS)["memoised frame shadowed by an earlier one"],
+                    note="memoised frame is no longer the first with its id, then loses it in place"))
 
     # ---- exhaustive sweeps ----
     ALL1 = ["add", "app", "rem", "delp", "deln", "ren", "setid", "inpl", "chg", "ecu", "lid"]
-    CORE = ["add", "app", "delp", "deln", "setid", "inpl", "lid"]
+    F2 = [False, True]
     sweeps = [
-        dict(name="1 matrix, all operations, 3 ids x 2 formats x 3 names", nmat=1, uni="full", ids=IDS, fmts=[False, True], names=[0, 1, 2],
-             ops=ALL1, necus=2, length=3 if not thorough else 4),
-        dict(name="1 matrix, core operations, 2 ids x 2 formats x 2 names", nmat=1, uni="small", ids=IDS[:2], fmts=[False, True], names=[0, 1],
-             ops=CORE, length=4 if not thorough else 5),
-        dict(name="2 matrices, core operations + copy + merge, 2 ids x 2 formats x 1 name", nmat=2, uni="small", ids=IDS[:2], fmts=[False, True],
-             names=[0], ops=["add", "app", "delp", "setid", "inpl", "lid", "copy", "merge"], length=3 if not thorough else 4),
-        dict(name="2 matrices, append/lookup/delete/set id/copy/merge, 1 id x 2 formats x 1 name", nmat=2, uni="small", ids=IDS[:1], fmts=[False, True],
-             names=[0], ops=["app", "delp", "setid", "lid", "copy", "merge"], length=4 if not thorough else 5),
+        dict(name="1 matrix, every operation, 3 ids x 2 formats x 3 names, 2 ECU names", nmat=1, uni="full", ids=IDS, fmts=F2, names=[0, 1, 2],
+             ops=ALL1, necus=2, length=4),
+        dict(name="2 matrices, add/append/delete/set id/in-place id/lookup/copy/merge, 2 ids x 2 formats x 1 name", nmat=2, uni="small",
+             ids=IDS[:2], fmts=F2, names=[0], ops=["add", "app", "delp", "setid", "inpl", "lid", "copy", "merge"], length=4),
     ]
+    if thorough:
+        sweeps += [
+            dict(name="1 matrix, every operation, 2 ids x 2 formats x 2 names, 1 ECU name", nmat=1, uni="small", ids=IDS[:2], fmts=F2,
+                 names=[0, 1], ops=ALL1, necus=1, length=5),
+            dict(name="2 matrices, every operation + copy + merge, 2 ids x 2 formats x 1 name", nmat=2, uni="small", ids=IDS[:2], fmts=F2,
+                 names=[0], ops=ALL1 + ["copy", "merge"], necus=1, length=4),
+            dict(name="2 matrices, append/delete/set id/lookup/copy/merge, 1 id x 2 formats x 1 name", nmat=2, uni="small", ids=IDS[:1],
+                 fmts=F2, names=[0], ops=["app", "delp", "setid", "lid", "copy", "merge"], length=5),
+        ]
     sweep_report = []
     pool = multiprocessing.Pool(nproc) if nproc > 1 else None
     try:
